@@ -94,7 +94,9 @@ Partially_Reduced_Product<D1, D2, R>
 ::Partially_Reduced_Product(const C_Polyhedron& ph,
                             Complexity_Class complexity)
   : d1(ph, complexity), d2(ph, complexity) {
-  set_reduced_flag();
+  // The two components are built independently: they need not be
+  // mutually reduced.
+  clear_reduced_flag();
 }
 
 template <typename D1, typename D2, typename R>
@@ -103,7 +105,9 @@ Partially_Reduced_Product<D1, D2, R>
 ::Partially_Reduced_Product(const NNC_Polyhedron& ph,
                             Complexity_Class complexity)
   : d1(ph, complexity), d2(ph, complexity) {
-  set_reduced_flag();
+  // The two components are built independently: they need not be
+  // mutually reduced.
+  clear_reduced_flag();
 }
 
 template <typename D1, typename D2, typename R>
@@ -111,7 +115,9 @@ inline
 Partially_Reduced_Product<D1, D2, R>
 ::Partially_Reduced_Product(const Grid& gr, Complexity_Class)
   : d1(gr), d2(gr) {
-  set_reduced_flag();
+  // The two components are built independently: they need not be
+  // mutually reduced.
+  clear_reduced_flag();
 }
 
 template <typename D1, typename D2, typename R>
@@ -120,7 +126,9 @@ inline
 Partially_Reduced_Product<D1, D2, R>
 ::Partially_Reduced_Product(const Box<Interval>& box, Complexity_Class)
   : d1(box), d2(box) {
-  set_reduced_flag();
+  // The two components are built independently: they need not be
+  // mutually reduced.
+  clear_reduced_flag();
 }
 
 template <typename D1, typename D2, typename R>
@@ -129,7 +137,9 @@ inline
 Partially_Reduced_Product<D1, D2, R>
 ::Partially_Reduced_Product(const BD_Shape<U>& bd, Complexity_Class)
   : d1(bd), d2(bd) {
-  set_reduced_flag();
+  // The two components are built independently: they need not be
+  // mutually reduced.
+  clear_reduced_flag();
 }
 
 template <typename D1, typename D2, typename R>
@@ -138,7 +148,9 @@ inline
 Partially_Reduced_Product<D1, D2, R>
 ::Partially_Reduced_Product(const Octagonal_Shape<U>& os, Complexity_Class)
   : d1(os), d2(os) {
-  set_reduced_flag();
+  // The two components are built independently: they need not be
+  // mutually reduced.
+  clear_reduced_flag();
 }
 
 template <typename D1, typename D2, typename R>
@@ -203,6 +215,7 @@ Partially_Reduced_Product<D1, D2, R>
   reduce();
   d1.unconstrain(var);
   d2.unconstrain(var);
+  clear_reduced_flag();
 }
 
 template <typename D1, typename D2, typename R>
@@ -211,6 +224,7 @@ Partially_Reduced_Product<D1, D2, R>::unconstrain(const Variables_Set& vars) {
   reduce();
   d1.unconstrain(vars);
   d2.unconstrain(vars);
+  clear_reduced_flag();
 }
 
 template <typename D1, typename D2, typename R>
@@ -241,6 +255,7 @@ Partially_Reduced_Product<D1, D2, R>
   y.reduce();
   d1.upper_bound_assign(y.d1);
   d2.upper_bound_assign(y.d2);
+  clear_reduced_flag();
 }
 
 template <typename D1, typename D2, typename R>
@@ -364,6 +379,7 @@ Partially_Reduced_Product<D1, D2, R>
   y.reduce();
   d1.time_elapse_assign(y.d1);
   d2.time_elapse_assign(y.d2);
+  clear_reduced_flag();
   PPL_ASSERT_HEAVY(OK());
 }
 
@@ -372,6 +388,7 @@ inline void
 Partially_Reduced_Product<D1, D2, R>::topological_closure_assign() {
   d1.topological_closure_assign();
   d2.topological_closure_assign();
+  clear_reduced_flag();
 }
 
 template <typename D1, typename D2, typename R>
@@ -576,6 +593,7 @@ Partially_Reduced_Product<D1, D2, R>
   y.reduce();
   d1.widening_assign(y.d1, tp);
   d2.widening_assign(y.d2, tp);
+  clear_reduced_flag();
 }
 
 template <typename D1, typename D2, typename R>
@@ -611,6 +629,7 @@ Partially_Reduced_Product<D1, D2, R>
 ::remove_space_dimensions(const Variables_Set& vars) {
   d1.remove_space_dimensions(vars);
   d2.remove_space_dimensions(vars);
+  clear_reduced_flag();
 }
 
 template <typename D1, typename D2, typename R>
@@ -619,6 +638,7 @@ Partially_Reduced_Product<D1, D2, R>
 ::remove_higher_space_dimensions(dimension_type new_dimension) {
   d1.remove_higher_space_dimensions(new_dimension);
   d2.remove_higher_space_dimensions(new_dimension);
+  clear_reduced_flag();
 }
 
 template <typename D1, typename D2, typename R>
